@@ -149,6 +149,21 @@ def run(chk):
                 muts.append((n, short(fld)))
         clears = [c for c in f.calls(TSG + "::clear", into_lambda=False)]
         ths = [n for n in walk(f.body, into_lambda=False) if n.get("k") == "CXXThrowExpr"]
+        # a call of another validating method of the same object (the overload this one forwards to) can still reject the call:
+        # it counts as a throw site when that method throws before it changes anything itself
+        fwd_throw = {}
+        for c in f.calls(into_lambda=False):
+            cal = callee(c) or ""
+            if not cal.startswith(TSG + "::") or cal == f.name and (callee_node(c) or {}).get("csig") == f.d.get("sig"):
+                pass
+            if cal.startswith(TSG + "::") and not is_read:
+                t = db.resolve(c)
+                # only the overload family of the method itself: a different method called with state taken from a valid grid
+                # (copyGrid -> setDomainTransform(source's transform)) cannot be decided from shape and is not claimed
+                if t is not None and t.cls == TSG and short(t.name) == last and not t.d.get("const") and (t.key, t.sig) != (f.key, f.sig) and \
+                        any(x.get("k") == "CXXThrowExpr" for x in walk(t.body, into_lambda=False)) and short(t.name) not in ("clear",):
+                    ths.append(c)
+                    fwd_throw[id(c)] = t
         if not muts and not clears:
             continue
         if not ths:
@@ -166,7 +181,9 @@ def run(chk):
                 if bt is None:
                     continue
                 # a throw inside the same call expression (argument evaluation) precedes the write
-                if reach(cfg, bn[0], bn[1], bt[0], bt[1]) and feasible_together(f, n, t, STATE):
+                if t is n or any(x is n for x in walk(t)):
+                    continue
+                if reach(cfg, bn[0], bn[1], bt[0], bt[1]) and (id(t) in fwd_throw or feasible_together(f, n, t, STATE)):
                     late.append(t)
             nmut += 1
             rule = "C14-D3.commit" if is_read else "C14-D2.order"
